@@ -97,7 +97,12 @@ class Header:
     def find_anchor(self, anchor, after=0, unique=True):
         """anchor: literal C++ signature text; whitespace-insensitive.  Returns
         (start, end) indices of the match in the file."""
-        pat = r"\s*".join(re.escape(tok) for tok in tokenize_ws(anchor))
+        toks = tokenize_ws(anchor)
+        pat = r"\s*".join(re.escape(tok) for tok in toks)
+        if re.fullmatch(r"\w+", toks[-1]):
+            pat += r"(?!\w)"
+        if re.fullmatch(r"\w+", toks[0]):
+            pat = r"(?<!\w)" + pat
         ms = list(re.finditer(pat, self.masked[after:]))
         # the masked text hides string contents; re-check against real text
         ms = [m for m in ms if re.fullmatch(pat, self.text[after + m.start():after + m.end()])]
